@@ -41,7 +41,7 @@ func reversedBundleFor(reg *template.Registry) *identityBundle {
 func c13Snippets() []string {
 	return []string{
 		"{call b.x}{param p: $a /}{/call}{call c.y data=\"all\"/}",
-		"{call c.y}{param q}z{$a}{/param}{/call}{call b.x/}{call .local/}",
+		"{call c.y}{param q}z{$a}{/param}{/call}{call b.x/}{call .local/}{call b.X/}{call c.Y/}",
 		"{$a|truncate:3}{$a|insertWordBreaks:2}{$a|changeNewlineToBr}{$a|escapeUri}{$x|noAutoescape|truncate:8}{$x|id|truncate:4|changeNewlineToBr}",
 		"{length($l)}{keys($m)}{augmentMap($m, ['z': 1, 'y': 2])}{round(1.5)}{max(1, 2)}{strContains($x, 'x')}",
 		"{['k3': 3, 'k1': 1, 'k2': ['n2': 2, 'n1': 1], 'k0': $a]}",
@@ -52,6 +52,9 @@ func c13Snippets() []string {
 		"{switch $n}{case 1, 2}{$x}{case 3}t{default}d{/switch}{if $a}{$x_1}{elseif $n}e{else}f{/if}",
 		"{foreach $i in $l}{$i}{index($i)}{isLast($i)}{ifempty}e{/foreach}{for $j in range(2)}{$j}{/for}",
 		"{$a ?: 'd'}{$n ? $x : $x_1}{not $a}{-$n}{$m['k']}{$m?.k}{$l[0]}{$ij.inj}",
+		// a map literal whose items all fail at render time: which failure is reported must not
+		// depend on the order in which Go visits the literal's items
+		"{if $n == 0}{['k3': $a.p.q, 'k1': $x.p.q, 'k2': $l[3].z, 'k0': $m.j.k.l]}{/if}",
 	}
 }
 
@@ -60,9 +63,12 @@ func c13Files(s1, s2 string, errs int) map[string]string {
 	useAll := "{if false}{$a}{$l}{$m}{$n}{$x}{$x_1}{/if}"
 	a := "{namespace a}\n" + docA + "{template .main}\n" + s1 + s2 + useAll + "\n{/template}\n/** */\n{template .local}\nlocal\n{/template}\n"
 	b := "{namespace b}\n/** @param? p */\n{template .x}\n[{$p ?: 'np'}]{call c.y/}\n{/template}\n" +
+		// names that differ only in case are different templates
+		"/** */\n{template .X}\nupper x\n{/template}\n" +
 		// header params and no soydoc: the registry rewrites this template's tree when it is added
 		"{template .hdr}\n{@param? h: ?}\n<{$h ?: 'nh'}>\n{/template}\n"
 	cc := "{namespace c}\n/**\n * @param? q\n * @param? a\n */\n{template .y}\n({$q ?: 'nq'}{$a ?: ''})\n{/template}\n" +
+		"/** */\n{template .Y}\nupper y\n{/template}\n" +
 		// compiles and renders, but has no JavaScript form (range() as a value): generation of this file
 		// fails, in the middle of the sequence of emissions, always with the same error
 		"/** */\n{template .nojs}\n{length(range(2))}\n{/template}\n"
@@ -70,7 +76,7 @@ func c13Files(s1, s2 string, errs int) map[string]string {
 		b += "/** */\n{template .bad}\n{if}\n{/template}\n" // syntax error in b
 	}
 	if errs&2 != 0 {
-		cc += "/** */\n{template .bad}\n{$undeclared}\n{/template}\n" // data-ref error in c
+		cc += "/** */\n{template .bad}\n{['k2': $undeclared2, 'k1': $undeclared1, 'k3': ['n': $undeclared4, 'm': $undeclared3]]}\n{/template}\n" // data-ref errors in c
 	}
 	if errs&4 != 0 {
 		a += "/** */\n{template .bad}\n{call b.missing/}\n{/template}\n" // unknown callee in a
@@ -195,6 +201,7 @@ func c13ErrorBundles() map[string]string {
 		"unexpected token":        "{namespace e}\n/** */\n{template .m}\n{if true}x{/foreach}\n{/template}\n",
 		"bad literal":             "{namespace e}\n/** */\n{template .m}\n{[1 2]}{['a': 1, 2]}\n{/template}\n",
 		"duplicate global":        "{namespace e}\n/** */\n{template .m}\n{UNDEFINED_GLOBAL}{OTHER.UNDEF}\n{/template}\n",
+		"undefined short global":  "{namespace e}\n/** */\n{template .m}\n{DEBUG}\n{/template}\n",
 	}
 }
 
@@ -347,7 +354,10 @@ func c13ErrorTexts(c *Ctx) {
 		cs := c13case{Files: map[string]string{"e.soy": src}}
 		var first string
 		run := func() string {
-			_, err := soy.NewBundle().AddTemplateString("e.soy", src).Compile()
+			// (several defined globals end in the undefined names the bundles use: whatever an error
+			// message derives from the set of globals must not depend on its iteration order)
+			_, err := soy.NewBundle().AddGlobalsMap(data.Map{"app.DEBUG": data.Int(1), "lib.DEBUG": data.Int(2), "x.UNDEFINED_GLOBAL": data.Int(3), "y.UNDEFINED_GLOBAL": data.Int(4), "z.OTHER.UNDEF": data.Int(5), "w.OTHER.UNDEF": data.Int(6)}).
+				AddTemplateString("e.soy", src).Compile()
 			if err == nil {
 				return "accepted"
 			}
